@@ -37,7 +37,7 @@ TStep ==
      \/ Ev.ev = "start" /\ Healthy /\ StartModule(Ev.m) /\ NoD
      \/ Ev.ev = "write" /\ Healthy /\ Write(Ev.m) /\ NoD
      \/ Ev.ev = "poll" /\ Healthy /\ Ev.m \notin polled /\ FirstPoll(Ev.m) /\ NoD
-     \/ Ev.ev = "poll" /\ Ev.m \in polled /\ Same /\ NoD
+     \/ Ev.ev = "poll" /\ Poll(Ev.m) /\ NoD
      \/ Ev.ev = "slow_read" /\ Same /\ NoD
      \/ Ev.ev = "poll_long" /\ PollBegin(Ev.m) /\ NoD
      \/ Ev.ev = "poll_end" /\ PollEnd(Ev.m) /\ NoD
